@@ -106,8 +106,64 @@ pub uninterp spec fn rhs_syms(p: &Production) -> Seq<SymbolIndex>;
 //@  |         ensures r@ == rhs_syms(self), r@.len() == self.rhs@.len(),
 //@end
 
-//@struct GRM Grammar fields=productions,empty_index
+// ---- TermVec / NonTermIndex: further instances of create_index! -------------------------------------------------------
+//@macro TRM IDX create_index invoked_in=IDX index=TermIndex collection=TermVec
+//@struct TRM TermIndex derive=Copy,Clone
 //@end
+//@struct TRM TermVec
+//@end
+//@impl TRM /^impl < T > TermVec < T >/
+//@  fn len ret=r
+//@  |                 ensures r == self.0@.len(),
+//@end
+//@macro NTI IDX create_index invoked_in=IDX index=NonTermIndex collection=NonTermVec
+//@struct NTI NonTermIndex derive=Copy,Clone
+//@end
+//@struct GRM Terminal fields=-
+//@end
+
+//@struct GRM Grammar fields=productions,terminals,empty_index
+//@end
+
+/// number of terminals: symbols [0, nterm) are terminals, the rest are non-terminals
+pub open spec fn nterm(g: &Grammar) -> int { g.terminals.0@.len() as int }
+
+//@impl IDX /^impl TermIndex/
+//@  fn symbol_index ret=r
+//@  |         ensures r.0 == self.0,
+//@end
+//@impl IDX /^impl NonTermIndex/
+//@  fn symbol_index ret=r
+//@  |         requires self.0 + term_len <= usize::MAX,
+//@  |         ensures r.0 == self.0 + term_len,
+//@end
+
+//@impl GRM /^impl Grammar/ has=is_nonterm
+//@  fn term_to_symbol_index ret=r
+//@  |         ensures r.0 == index.0, // [C01]
+//@  fn symbol_to_term_index ret=r
+//@  |         ensures r.0 == index.0, // [C01]
+//@  fn nonterm_to_symbol_index ret=r
+//@  |         requires index.0 + nterm(self) <= usize::MAX,
+//@  |         ensures r.0 == index.0 + nterm(self), // [C01]
+//@  fn symbol_to_nonterm_index ret=r
+//@  |         requires index.0 >= nterm(self),
+//@  |         ensures r.0 == index.0 - nterm(self), // [C01]
+//@  fn is_nonterm ret=r
+//@  |         ensures r == (index.0 >= nterm(self)), // [C01]
+//@  fn is_term ret=r
+//@  |         ensures r == (index.0 < nterm(self)), // [C01]
+//@end
+
+/// the four conversions are mutually inverse on their domains, and every symbol is exactly one of term / non-term
+pub proof fn lemma_symbol_index_round_trips(g: &Grammar, t: int, n: int)
+    requires 0 <= t < nterm(g), 0 <= n,
+    ensures
+        (t < nterm(g)) && !(t >= nterm(g)),
+        (n + nterm(g)) - nterm(g) == n,
+        n + nterm(g) >= nterm(g),
+{
+}
 
 //@type TBL Firsts
 //@type TBL FirstSets
